@@ -1501,7 +1501,11 @@ pub fn run_open_file_limit(rec: &mut Recorder, variant: u64) {
     // one slot less: a cursor positioned on an entry cannot get its last file (it needs all
     // `nfiles` at once), so with `nfiles` slots cursor B alone fills every slot: the limit of the
     // run below is tight
-    let tight = match run(nfiles - 1, &scratch_dir(&format!("c07.limit.{}.tight", variant))) {
+    // (an early return of `run` — the refused scan — leaves the store's directory behind)
+    let tight_dir = scratch_dir(&format!("c07.limit.{}.tight", variant));
+    let tight_run = run(nfiles - 1, &tight_dir);
+    let _ = std::fs::remove_dir_all(&tight_dir);
+    let tight = match tight_run {
         Ok((_, _, ra, _, _, rb, _, _)) => {
             if std::env::var("BLUE_DEBUG").is_ok() {
                 eprintln!("{} tight: A {:?} B {:?}", tag, ra.iter().map(|x| x.chars().take(90).collect::<String>()).collect::<Vec<_>>(), rb.iter().map(|x| x.chars().take(90).collect::<String>()).collect::<Vec<_>>());
@@ -1516,7 +1520,10 @@ pub fn run_open_file_limit(rec: &mut Recorder, variant: u64) {
         }
     };
     rec.count(if tight { "limit.one_slot_less_is_refused" } else { "limit.one_slot_less_NOT_refused" });
-    match run(nfiles, &scratch_dir(&format!("c07.limit.{}", variant))) {
+    let limit_dir = scratch_dir(&format!("c07.limit.{}", variant));
+    let limit_run = run(nfiles, &limit_dir);
+    let _ = std::fs::remove_dir_all(&limit_dir);
+    match limit_run {
         Err(e) => rec.case(&format!("# {} history", tag), "#", Verdict::Fail { class: "fault-free-op-error".into(), detail: format!("{} {}", tag, e) }, None),
         Ok((open_state, prog_a, ra, va, prog_b, rb, vb, snapshot)) => {
             rec.count("limit.histories");
